@@ -305,7 +305,7 @@ func encodeMark(_ context.Context, err error) (msg string, _ []string, payload p
 
 func decodeMark(_ context.Context, cause error, _ string, _ []string, payload proto.Message) error {
 	m, ok := payload.(*errorspb.MarkPayload)
-	if !ok {
+	if !ok || len(m.Types) == 0 {
 		// If this ever happens, this means some version of the library
 		// (presumably future) changed the payload type, and we're
 		// receiving this here. In this case, give up and let
